@@ -166,6 +166,8 @@ def _trace_one(spec, cfg, trace, idx, env_extra, timeout):
     res["out"] = out
     m = re.search(r'"TRACE-REJECTED at event", (\d+), "of", (\d+)', out)
     res["rejected_at"] = int(m.group(1)) if m else None
+    mb = re.search(r'BAD-EVENTS <<([\d, ]*)>>', out)
+    res["bad_events"] = [int(x) for x in mb.group(1).split(",")] if mb and mb.group(1).strip() else []
     inv = re.search(r"Invariant (\w+) is violated", out)
     res["invariant"] = inv.group(1) if inv else None
     if not res["ok"] and res["rejected_at"] is None and res["invariant"] is None:
@@ -217,7 +219,13 @@ def validate_trace(spec, cfg, trace, nshards=8, env_extra=None, timeout=1800, bo
         total["events"] += len(lines)
         total["states"] += r.get("states", 0)
         total["transitions"] += r.get("transitions", 0)
-        if not r["ok"]:
+        if not r["ok"] and r.get("bad_events"):
+            total["ok"] = False
+            for at in r["bad_events"]:
+                ev = json.loads(lines[at - 1]) if 0 < at <= len(lines) else None
+                total["rejects"].append({"line": first + at, "event": ev, "prev": None, "invariant": None,
+                                         "shard": pth, "shard_line": at})
+        elif not r["ok"]:
             total["ok"] = False
             at = r["rejected_at"]
             if at is None:
